@@ -30,7 +30,7 @@ thread_local! {
 
     // An enum that is declared inside a generic function gets a uid of its own for every
     // different list of payload types it is instantiated with, see `instantiated_enum_uid`
-    pub static INSTANTIATED_ENUM_UIDS: RefCell<FxHashMap<(u32, Vec<Intern<Ty>>), u32>> = RefCell::new(FxHashMap::default());
+    pub static INSTANTIATED_ENUM_UIDS: RefCell<FxHashMap<(u32, Vec<(Intern<Ty>, u64)>), u32>> = RefCell::new(FxHashMap::default());
 
     pub static TYPE_NAMES: RefCell<FxHashMap<Intern<Ty>, TyName>> = RefCell::new(FxHashMap::default());
 
@@ -80,12 +80,13 @@ pub fn get_enum_from_variants(enum_uid: u32, variants: &[&Ty]) -> Intern<Ty> {
 /// instantiation: for `Tri :: (comptime T: type) -> type { enum { A: T, B, C } }` nothing told
 /// the `B` of `Tri(i64)` from the `B` of `Tri(bool)`, so `if c { TB.B } else { TB.C }` was
 /// typed as whichever instantiation happened to be inferred last. Every different list of
-/// payload types gets a uid of its own (counting down from the top, the uids of declarations
-/// count up from zero); instantiating with the same types again gives the same enum.
-pub fn instantiated_enum_uid(decl_uid: u32, payload_tys: Vec<Intern<Ty>>) -> u32 {
+/// payload types and discriminants (`enum { Low: T | base, .. }`) gets a uid of its own
+/// (counting down from the top, the uids of declarations count up from zero); instantiating
+/// with the same arguments again gives the same enum.
+pub fn instantiated_enum_uid(decl_uid: u32, variants: Vec<(Intern<Ty>, u64)>) -> u32 {
     INSTANTIATED_ENUM_UIDS.with_borrow_mut(|uids| {
         let next = u32::MAX - uids.len() as u32;
-        *uids.entry((decl_uid, payload_tys)).or_insert(next)
+        *uids.entry((decl_uid, variants)).or_insert(next)
     })
 }
 
